@@ -16,6 +16,12 @@ right afterwards (`connectL`: the connection owns a copy, `c15_connect_owns_call
 `c15_asis_connect_lvalue_dangling`, `/repo` commit d8a7c3e); `c15_assign_only_retargets`, `c15_assign_then_await`,
 `c15_callbacks_unconnected` say what these do, every other theorem quantifies over them.
 
+Operation lists also include collector calls that FAIL (`emitFail`: the constructor of the value throws inside the by-value
+overloads): `c15_failed_emit_loses_nobody` (the step), `c15_failed_emits_then_next_delivers` / `c15_failed_emits_then_disconnect`
+(whoever was waiting before any number of failed calls gets the next value / the cancellation), `c15_failed_emit_stale_pointer_unread`
+and `c15_never_owed_dead` (the stale `_cur_val` such a call leaves behind is never read under the contract), with the negative
+lemma `c15_unflushed_failed_emit_reads_destroyed`; the global theorems count successful calls only (`emitted`, `expect`).
+
 Also here: `c15_hookup_receives_registration_value` (`hook_up` subscribes before the registration function runs),
 `c15_model_is_the_loop` (the closed forms the proofs use are the awaiter-by-awaiter loops of the code, which is
 what the driver runs against the headers) and the publication discipline of `awaiter::subscribe`
@@ -103,6 +109,13 @@ theorem c15_resume_reads_current {s : State} (h : Reachable s) (l : Nat) (hl : l
   rw [if_pos hl]
   split
   next v hv =>
+    rw [hv]
+    have hcn := hi.rel_conn _ hl
+    unfold afterValue await reawait
+    dsimp only
+    have h0 : s.handles ≠ 0 := by intro h0; simp [readNow, h0] at hv
+    split <;> simp [h0, hme, hcn]
+  next hv =>
     rw [hv]
     have hcn := hi.rel_conn _ hl
     unfold afterValue await reawait
@@ -292,6 +305,136 @@ theorem c15_unflushed_can_miss :
 theorem reachable_step {s : State} (h : Reachable s) (op : Op) : Reachable (step s op).1 := by
   obtain ⟨ops, rfl⟩ := h
   exact ⟨ops ++ [op], by simp [run, List.foldl_append]⟩
+
+/-! ### Failed emissions: a by-value collector call whose value cannot be constructed
+
+`Op.emitFail` = `collector::operator()` by value (in-place arguments — the route of a const lvalue as well —, or rvalue) where the
+constructor of `T` throws inside `_value_storage.emplace(...)`; the lvalue-reference overload constructs nothing and cannot fail.
+Every theorem above quantifies over operation lists that contain any number of such calls anywhere: `c15_broadcast`,
+`c15_no_miss`, `c15_callbacks`, `c15_each_once` say that `emitted` / `expect` — what listeners are owed — consist of the
+*successful* calls only and that all of it is delivered; the theorems below say what the failed call itself does. -/
+
+/-- **A failed emission delivers nothing and loses nobody** (the step, every state with a live handle): the exception reaches
+the caller; the chain of waiting listeners (coroutines and callbacks), the listeners sitting in suspend points, the gated ones,
+everything anybody has observed or is owed, the callbacks' budgets, the handle count and `_cur_val` are exactly what they
+were; only `_value_storage` is now empty. -/
+theorem c15_failed_emit_loses_nobody (s : State) (h0 : s.handles ≠ 0) :
+    (stepEmitFail s).2 = Res.threw ∧
+    (stepEmitFail s).1.chain = s.chain ∧ (stepEmitFail s).1.rel = s.rel ∧ (stepEmitFail s).1.gated = s.gated ∧
+    (stepEmitFail s).1.got = s.got ∧ (stepEmitFail s).1.expect = s.expect ∧ (stepEmitFail s).1.emitted = s.emitted ∧
+    (stepEmitFail s).1.left = s.left ∧ (stepEmitFail s).1.handles = s.handles ∧ (stepEmitFail s).1.cur = s.cur ∧
+    (stepEmitFail s).1.stored = none ∧
+    cbsOf (stepEmitFail s).1 = cbsOf s ∧ corosOf (stepEmitFail s).1 = corosOf s := by
+  simp [stepEmitFail, h0, cbsOf, corosOf]
+
+/-- any number of failed emissions in a row -/
+def failN : Nat → State → State
+  | 0, s => s
+  | n + 1, s => failN n (stepEmitFail s).1
+
+theorem failN_reachable {s : State} (h : Reachable s) (n : Nat) : Reachable (failN n s) := by
+  induction n generalizing s with
+  | zero => exact h
+  | succ n ih => exact ih (reachable_step h Op.emitFail)
+
+theorem failN_same (n : Nat) (s : State) (h0 : s.handles ≠ 0) :
+    (failN n s).chain = s.chain ∧ (failN n s).rel = s.rel ∧ (failN n s).handles = s.handles ∧ (failN n s).got = s.got
+    ∧ (failN n s).left = s.left ∧ (failN n s).isCb = s.isCb ∧ (failN n s).expect = s.expect
+    ∧ (failN n s).emitted = s.emitted := by
+  induction n generalizing s with
+  | zero => simp [failN]
+  | succ n ih =>
+    have h1 : (stepEmitFail s).1.handles ≠ 0 := by simp [stepEmitFail, h0]
+    have := ih (stepEmitFail s).1 h1
+    simpa [failN, stepEmitFail, h0] using this
+
+/-- **Across failed emissions** (every reachable state with nothing unflushed, any number `n` of failed calls in a row): the next
+collector call that succeeds — of any flavour — finds everybody who was waiting before the failures: exactly the waiting
+coroutines go into its suspend point, each reads `v`; every waiting callback is called with `v` (and released iff it answers
+false); nobody else observes anything. -/
+theorem c15_failed_emits_then_next_delivers {s : State} (h : Reachable s) (hrel : s.rel = []) (h0 : s.handles ≠ 0)
+    (n : Nat) (r : Bool) (v : Nat) :
+    (stepEmit (failN n s) r v).1.rel = corosOf s ∧ (stepEmit (failN n s) r v).2 = Res.num (corosOf s).length ∧
+    readNow (stepEmit (failN n s) r v).1 = Out.val v ∧
+    (∀ c, c ∈ cbsOf s → (stepEmit (failN n s) r v).1.got c = s.got c ++ Out.val v :: (if 0 < s.left c then [] else [Out.free])) ∧
+    (∀ l, l ∉ s.chain → (stepEmit (failN n s) r v).1.got l = s.got l ∧ l ∉ (stepEmit (failN n s) r v).1.rel) := by
+  obtain ⟨hc, hr, hh, hg, hl, hk, _, _⟩ := failN_same n s h0
+  have hcb : cbsOf (failN n s) = cbsOf s := by simp [cbsOf, hc, hk]
+  have hco : corosOf (failN n s) = corosOf s := by simp [corosOf, hc, hk]
+  obtain ⟨a, _, b, c, d, e⟩ := c15_broadcast_step (failN_reachable h n) (by rw [hr, hrel]) (by rw [hh]; exact h0) r v
+  rw [hco] at a b
+  rw [hcb, hg, hl] at d
+  rw [hc, hg] at e
+  exact ⟨a, b, c, d, e⟩
+
+/-- …and destroying the last handle after failed emissions wakes everybody who was waiting before them: every waiting
+coroutine goes into the destructor's suspend point and reads the cancellation, every waiting callback is released. -/
+theorem c15_failed_emits_then_disconnect (s : State) (h1 : s.handles = 1) (n : Nat) :
+    (stepDrop (failN n s)).1.chain = [] ∧ (stepDrop (failN n s)).1.rel = s.rel ++ corosOf s ∧
+    (∀ l, l ∈ s.chain → s.isCb l = false → l ∈ (stepDrop (failN n s)).1.rel) ∧
+    (∀ c, c ∈ s.chain → s.isCb c = true → (stepDrop (failN n s)).1.got c = s.got c ++ [Out.free]) ∧
+    readNow (stepDrop (failN n s)).1 = Out.canceled := by
+  obtain ⟨hc, hr, hh, hg, _, hk, _, _⟩ := failN_same n s (by omega)
+  have hco : corosOf (failN n s) = corosOf s := by simp [corosOf, hc, hk]
+  obtain ⟨a, b, c, d, e, _⟩ := c15_disconnect_wakes_all (failN n s) (by rw [hh]; exact h1)
+  rw [hr, hco] at b
+  rw [hc, hk] at c d
+  rw [hg] at d
+  exact ⟨a, b, c, d, e⟩
+
+/-- **The stale `_cur_val` is never read under the contract** (all flushed histories): after a failed emission `_cur_val` may
+still point at `_value_storage`, which holds no object any more — but a listener that is about to run never reads a destroyed
+value: what it reads is the last thing it is owed, a value that was really emitted or the cancellation. -/
+theorem c15_failed_emit_stale_pointer_unread {s : State} (h : FlushedReachable s) (l : Nat) (hl : l ∈ s.rel) :
+    readNow s ≠ Out.dead ∧ ∀ o, o ∈ observed s l → o ≠ Out.dead := by
+  have hi := reachable_inv (flushed_reachable h)
+  have hb := c15_broadcast h l (hi.rel_lt _ hl) (hi.rel_coro _ hl)
+  have hx : ExpLive s := by
+    obtain ⟨ops, _, rfl⟩ := h
+    exact explive_run init ops explive_init
+  have key : ∀ o, o ∈ observed s l → o ≠ Out.dead := by
+    intro o ho e
+    rw [hb, e] at ho
+    exact hx l ho
+  refine ⟨fun e => key (readNow s) ?_ e, key⟩
+  simp [observed, hl]
+
+/-- …every history, contract or not: no coroutine listener is ever *owed* a destroyed value, and callbacks never see one
+(a callback reads inside the very collector call that stored the value: `c15_callbacks`). -/
+theorem c15_never_owed_dead {s : State} (h : Reachable s) (l : Nat) : Out.dead ∉ s.expect l := by
+  obtain ⟨ops, rfl⟩ := h
+  exact explive_run init ops explive_init l
+
+/-- Negative lemma — the contract matters here too: a listener released by a by-value call whose suspend point is still held
+when the next by-value call fails is handed a reference to the copy that the failed `emplace` has destroyed (`_cur_val` is
+stale).  Reachable, not `Flushed`; on the headers: corpus/c15_failed_emit.txt, second case (`vdead`). -/
+theorem c15_unflushed_failed_emit_reads_destroyed :
+    (run init [Op.listen [], Op.emit false 1, Op.emitFail, Op.resume 0]).got 0 = [Out.dead]
+    ∧ ¬ Flushed init [Op.listen [], Op.emit false 1, Op.emitFail, Op.resume 0]
+    ∧ (run init [Op.listen [], Op.emit true 1, Op.emitFail, Op.resume 0]).got 0 = [Out.val 1] := by decide
+
+/-- non-vacuity: a flushed history with failed emissions before anything was stored, between by-value and by-reference
+calls, twice in a row, with re-awaiting / gating / leaving coroutines and a callback waiting; everybody gets every value of the
+successful calls, nothing from the failed ones, and the cancellation / release at the end -/
+def demoFail : List Op :=
+  [Op.listen [], Op.listen [Act.gate], Op.connect 2, Op.emitFail,
+   Op.emit false 5, Op.resume 1, Op.resume 0,
+   Op.emitFail, Op.emitFail, Op.wake 1,
+   Op.emit true 6, Op.resume 0, Op.resume 1,
+   Op.emitFail,
+   Op.emit false 7, Op.resume 1, Op.resume 0,
+   Op.emitFail, Op.dropHandle, Op.resume 0, Op.resume 1]
+
+example : FlushedReachable (run init demoFail) := ⟨demoFail, by decide, rfl⟩
+example : (run init demoFail).got 0 = [Out.val 5, Out.val 6, Out.val 7, Out.canceled]
+    ∧ (run init demoFail).got 1 = [Out.val 5, Out.val 6, Out.val 7, Out.canceled]
+    ∧ (run init demoFail).got 2 = [Out.val 5, Out.val 6, Out.val 7, Out.free]
+    ∧ (run init demoFail).emitted = [5, 6, 7] ∧ (run init demoFail).pure 0 = true := by decide
+/-- a reachable state right after a failed emission with two coroutines and a callback waiting and the stale pointer in place
+(hypotheses of `c15_failed_emits_then_next_delivers` / `c15_failed_emit_loses_nobody`) -/
+example : (run init (demoFail.take 8)).rel = [] ∧ (run init (demoFail.take 8)).handles = 1
+    ∧ (run init (demoFail.take 8)).chain = [0, 2] ∧ (run init (demoFail.take 8)).gated = [1]
+    ∧ (run init (demoFail.take 8)).cur = some Ptr.owned ∧ (run init (demoFail.take 8)).stored = none := by decide
 
 /-- `hook_up` (signal.h:324-343): the first `co_await` creates the state, subscribes the coroutine and only THEN runs the
 registration function.  So a collector call made by the registration function itself (a generator that replays its
